@@ -1,0 +1,40 @@
+//go:build verif
+
+// Machine-checked contracts for package l4rdp (comment-only; read by /verif/gvc).
+
+package l4rdp
+
+// The matcher never panics and allocates at most what the 16-bit TPKT length allows (C04).
+//@ func (m *MatchRDP) Match(cx *layer4.Connection) (matched bool, err error)
+//@ requires wfm(cx)
+//@ requires[inv] m.cookieHashRegexp != nil && m.customInfoRegexp != nil
+//@ safety C04
+
+// The fixed-size parsers: binary.Read into the receiver (no panic; they write the receiver only).
+//@ func (h *TPKTHeader) FromBytes(src []byte) (err error)
+//@ requires h != nil
+//@ safety C04
+//@ assigns all(h)
+
+//@ func (x *X224Crq) FromBytes(src []byte) (err error)
+//@ requires x != nil
+//@ safety C04
+//@ assigns all(x)
+
+//@ func (r *RDPNegReq) FromBytes(src []byte) (err error)
+//@ requires r != nil
+//@ safety C04
+//@ assigns all(r)
+
+//@ func (i *RDPCorrInfo) FromBytes(src []byte) (err error)
+//@ requires i != nil
+//@ safety C04
+//@ assigns all(i)
+
+// RDPToken.FromBytes appends what follows the fixed part to Optional: bounded by the source.
+//@ func (t *RDPToken) FromBytes(src []byte) (err error)
+//@ requires t != nil && len(t.Optional) == 0 && cap(t.Optional) == 0 && len(src) <= 65535
+//@ safety C04
+//@ assigns all(t)
+//@ ensures[C04] len(t.Optional) <= len(src)
+//@ ensures[C04] err == nil ==> len(src) >= 11 && len(t.Optional) == len(src) - 11
